@@ -31,6 +31,12 @@ CHECKS = {
  "C14": ("exploration", "trace monitor over hooked cleanup under a logical clock (VerifAge), envelope oracle on retransmission times and entry lifetimes",
          "Entries of four kinds are created through the real handlers at different logical times; handleCleanup is driven by tick scripts (regular 30 s, irregular 1 s..3 h, stalls up to 1300 h, full request queue, one full 14400-retry run). After every tick the outbound gossip channel, the request channel and the aggregation map are observed: retransmissions byte-identical to the original observation, >= 5 min apart, never overdue by more than 5 min + 2 tick gaps, accompanied by a re-observation request when the queue has room; observed entries never discarded before the budget is spent unless a quorum VAA is stored; late/unknown/submitted entries gone within 30 s / 5 min / 1 h + 2 ticks.",
          "Logical time through the VerifAge hook; scenarios whose real elapsed time could blur a threshold are discarded.", "3/C14"),
+ "C15": ("exploration", "differential runtime oracle: real InjectGovernanceVAA vs Ralph parsers interpreted from source; integer comparison of every requested value; panic monitor; two-instance determinism",
+         "Requests of all nine governance kinds (plus a message without payload) with in-range boundary and beyond-range values are submitted to the real admin service (hook-constructed); each is either rejected, or the injected VAA must come from the configured governance emitter, carry the request's envelope fields untruncated, return the VAA's own digest, give the same digest on a second service instance and on repetition, pass the contracts' module/action check and be parsed by the interpreted Ralph function for that action into exactly the requested values (compared as integers) with the exact total size the contract asserts; a panic is a violation.",
+         "Ralph parsers are interpreted from source text; contract policy assertions unrelated to layout are not judged.", "3/C15"),
+ "C17": ("exploration", "trace monitor of the real dispatcher under a harness clock with sentinel-based quiescence; queue-length/FIFO model; blocking watchdog with goroutine dump",
+         "The real handleReobservationRequests runs against a mock clock whose purge ticks the harness delivers on an unbuffered channel; per-chain queues of capacity 0-3 at every fill level, unknown chains and chain ids above 65535; every step is followed by a sentinel request proving the dispatcher processed it. A request may appear only on the queue of the chain it names; a repeat within 11 min of the last forward is suppressed and one after 18 min is forwarded when there is room; dropped requests are not remembered; no send to the dispatcher may take longer than the watchdog (goroutine dump attached); PostObservationRequest on a full queue returns ErrChanFull without blocking.",
+         "Window judged as an envelope (11 min / 18 min).", "3/C17"),
  "C16": ("fault_enumeration", "SIGKILL injection into writer child processes at PRNG-chosen points; fresh verifier process checks every acknowledged id",
          "Writer children stream unique (cycle,seq,version) VAAs of 100 B..256 KiB (with overwrites) into one badger directory through the real db.StoreSignedVAA and acknowledge each on a pipe; the parent SIGKILLs them after the k-th ACK + delay, right after a BEGIN, during open, or kills the verifier during its own reopen; after every kill a fresh process reopens the directory and looks up every id of all cycles: acknowledged => exact bytes of the acknowledged (or a later begun) version, unacknowledged => not-found or exact bytes, never anything else; reopen must succeed.",
          "Process kill only (page cache survives), as the property states; kill points are sampled, not enumerated at instruction granularity.", "3/C16"),
